@@ -1,6 +1,6 @@
 import Hive.Proofs.BatchWriterInv
 /-!
-# C08 proofs, part 7: no reachable deadlock unless a producer was inside the Enqueue window when Stop ran
+# C08 proofs, part 7: no reachable deadlock
 -/
 namespace Hive.BatchWriter
 open Hive.Conc Hive.Spec.BatchWriter
@@ -17,16 +17,15 @@ theorem writer_stuck {s : St} (h : step s .writer = []) :
   all_goals (revert h; (repeat' split) <;> simp_all)
 
 
-/-- **No deadlock without a window race**: if no producer was inside the Enqueue window when Stop cleared
-`running`, then in no reachable configuration (with a writer token in the pool) are all threads unable to
-move while some call is unfinished. -/
-theorem no_deadlock {c : Cfg St Thread} (hi : Inv c) (hw : Thread.writer ∈ c.2) (hr : c.1.raced = false) :
+/-- **No deadlock**: in no reachable configuration (with a writer token in the pool) are all threads unable
+to move while some call is unfinished. -/
+theorem no_deadlock {c : Cfg St Thread} (hi : Inv c) (hw : Thread.writer ∈ c.2) :
     ¬ Deadlock sys (fun t => t.finished = true) c := by
   obtain ⟨s, ts⟩ := c
   rintro ⟨hst, t, ht, hnf⟩
   have hst' : ∀ u ∈ ts, step s u = [] := hst
   obtain ⟨hc, hwo, hws, hl, hn, hti, _⟩ := hi
-  simp only at hc hwo hws hl hn hti hw hr ht hnf
+  simp only at hc hwo hws hl hn hti hw ht hnf
   have hwr := writer_stuck (hst' _ hw)
   -- the start sequence is not in flight
   have hgo : ¬ (s.added = true ∧ s.spawned = false) := by
@@ -109,11 +108,9 @@ theorem no_deadlock {c : Cfg St Thread} (hi : Inv c) (hw : Thread.writer ∈ c.2
         rcases hwr with ⟨_, hs⟩ | he
         · simp [hsp] at hs
         · exact he
-      have hfin := hn.fin hr (Or.inr hex) cur
-      have hsch := hc.sch cur
-      have hpos : 0 < ts.countP (holds cur) :=
-        List.countP_pos_iff.mpr ⟨_, ht, by simp [holds]⟩
-      obtain ⟨a1, a2, a3, a4, a5⟩ := hwo cur
+      have hz := hl.fin_win (Or.inr hex)
+      have hwn := hc.win
+      have hpos : 0 < ts.countP inWin := List.countP_pos_iff.mpr ⟨_, ht, by simp [inWin]⟩
       omega
     all_goals (simp [step, stepProd, hmu] at h1 <;> (repeat' split at h1) <;> simp_all)
   | stopper id pc =>
